@@ -33,6 +33,8 @@ Definition wf_case (c : case) : bool :=
   | CTcs pre blocks mn target sizes _ post _ _ _ _ =>
       w3_all ps_in pre && w3_all ps_in post && forallb in_u32 blocks && in_u32 target
       && (let '(a, b, c) := sizes in (0 <=? a) && (0 <=? b) && (0 <=? c))
+  | CRewind pre blocks mn target _ post _ _ _ _ =>
+      w3_all ps_in pre && w3_all ps_in post && forallb in_u32 blocks && in_u32 target
   | CTrunc pre blocks mn req _ post _ _ _ _ =>
       w3_all ps_in pre && w3_all ps_in post && forallb in_u32 blocks && in_u32 req
   end.
